@@ -292,6 +292,26 @@ func runC07(c *an.Ctx) {
 			}
 		})
 		c.Check(okNA, "C07.e", "ranges-non-adjacent", "a header adjacent to the last pending range extends it; a new range is started only across a gap (ranges are never adjacent)", rangesAdd, nil, "", nil)
+		// ranges stay strictly increasing: a header at or below the pending head is neither appended nor starts a range
+		// (a duplicate range [..K],[K] can never be stored and blocks the pending queue for good)
+		{
+			hd := headTermOf(t, rangesAdd)
+			pr := ff.Prune(an.NotB("IsZero("+hd+")"), an.GE("Height("+hd+")", "Height(p1)"))
+			nMut := 0
+			an.Instrs(rangesAdd, func(in ssa.Instruction) {
+				call, isCall := in.(*ssa.Call)
+				if !isCall {
+					return
+				}
+				cal := an.StaticCallee(&call.Call)
+				if cal == nil || (an.FuncName(cal) != "sync.newRange" && an.FuncName(cal) != "sync.(*headerRange).Append") {
+					return
+				}
+				nMut++
+				c.Check(!pr.Reachable(call.Block()), "C07.e", "ranges-strictly-increasing:"+an.FuncName(cal), "a header whose height is at or below the pending head is dropped: it neither extends the last range nor starts a new one", rangesAdd, call, "", ff.AtRefined(call.Block()))
+			})
+			c.Min("C07.e", "mutations of the pending ranges in Add", nMut, 2)
+		}
 		n := checkArith(c, "C07.e", []*ssa.Function{rangeAmount, p.Method("sync", "headerRange", "Get"), p.Method("sync", "headerRange", "Remove")}, map[string]bool{"usub": true, "index": true, "slice": true}, nil, []arithException{
 			{Func: "sync.(*headerRange).Get", Match: "[:", Reason: "rangeAmount(end) ≤ len(headers): it returns len, or end−start+1 when start+len ≥ end; start+len == end (which would give len+1) needs a range ending exactly at end−1 while `end` is the height of a header of a later pending range, impossible because ranges are never adjacent (checked: C07.e ranges-non-adjacent)"},
 			{Func: "sync.(*headerRange).Remove", Match: ":]", Reason: "same bound as headerRange.Get (rangeAmount(end) ≤ len(headers) by the non-adjacency of pending ranges)"},
